@@ -62,7 +62,7 @@ func layoutData(specs []*corpus.Spec) (string, [][]string) {
 					}
 				}
 			}
-			rs = append(rs, fmt.Sprintf("{Lhs: %s, Rhs: []string%s, Prec: %s, Action: %s}", q(r.Lhs), strs(rhs), q(prec), q(s.Action(k+1, false))))
+			rs = append(rs, fmt.Sprintf("{Lhs: %s, Rhs: []string%s, Prec: %s, Action: %s, Mid: %s}", q(r.Lhs), strs(rhs), q(prec), q(s.Action(k+1, false)), q(r.Mid)))
 		}
 		rules = append(rules, "{"+strings.Join(rs, ", ")+"}")
 		var ts []string
@@ -147,7 +147,7 @@ func C10(c *Ctx) {
 		nRich = 60
 	}
 	for _, s := range corpus.Fixed() {
-		if s.Name == "action_text" || s.Name == "directive_names" || s.Name == "prec_numbers" || s.Name == "utf8_literals" || s.Name == "alias_prectag" || s.Name == "grouped_tokens" {
+		if s.Name == "action_text" || s.Name == "directive_names" || s.Name == "prec_numbers" || s.Name == "utf8_literals" || s.Name == "alias_prectag" || s.Name == "grouped_tokens" || s.Name == "midrule_action" {
 			specs = append(specs, s) // canonical rendering and ';' subsets
 		}
 	}
